@@ -422,6 +422,34 @@ class Check(Property):
             except Exception as exc:  # noqa: BLE001
                 v.append(f"C17 wraps with an array default, call {call}: raised {type(exc).__name__}: {exc}")
                 break
+        # wraps under the with_context decorator (parameters given to the decorator): the wrapped function receives the magnitude
+        # converted by the context's rule WITH those parameters - positional, keyword and default arguments alike
+        try:
+            fl = regs.fresh("float")
+            lam = fl.Quantity(530.0, "nanometer")
+            for n_ in (1.33, 2.0):
+                want = lam.to("terahertz", "sp", n=n_).magnitude
+                seen = []
+
+                @fl.with_context("sp", n=n_)
+                @fl.wraps("terahertz", ("terahertz",))
+                def ident(f_):
+                    seen.append(f_)
+                    return f_
+
+                @fl.with_context("sp", n=n_)
+                @fl.wraps(None, ("terahertz", None))
+                def two(f_, k=1):
+                    seen.append(f_)
+                    return f_
+                for label, call in (("positional", lambda: ident(lam)), ("keyword", lambda: ident(f_=lam)), ("with another keyword", lambda: two(lam, k=3))):
+                    del seen[:]
+                    call()
+                    if not seen or abs(seen[0] - want) > 1e-9 * want:
+                        v.append(f"C17 @with_context('sp', n={n_}) around wraps(('terahertz',)), {label} call with 530 nm: the function received "
+                                 f"{seen[0] if seen else None}, the context's rule with n={n_} gives {want}")
+        except Exception as exc:  # noqa: BLE001
+            v.append(f"C17 with_context + wraps probe raised {type(exc).__name__}: {exc}")
         # a conversion only an active context allows: inside the context the rule applies, outside the call is refused
         g = u.wraps(None, "terahertz")(lambda x: got.append(x) or x)
         q = u.Quantity(Fraction(rng.randint(100, 900)), "nanometer")
